@@ -204,6 +204,23 @@ class C04(CodeMonitor):
         if ln != len(want_a):
             stats.violation(case, "len", "len(args) == %d, %d parameters" % (ln, len(want_a)))
             return
+        # the mapping handed out belongs to the caller: emptying it must not reach the
+        # answer given for the same (or an equal) signature afterwards
+        try:
+            pm = t.args.parameters
+            if hasattr(pm, "clear"):
+                pm.clear()
+            again = [(n, k.name) for n, k in CodeData.from_code(code).type.args.parameters.items()]
+        except Exception as e:
+            stats.violation(case, "parameters-raises:" + type(e).__name__, "after the caller emptied an earlier answer: " + exc_summary(e))
+            return
+        if again != want_a:
+            stats.violation(
+                case,
+                "parameters",
+                "after the caller emptied the mapping of an earlier answer: Args.parameters %s, CPython binds %s" % (short(again, 200), short(want_a, 200)),
+            )
+            return
         # field-level agreement (kinds must come from the right fields)
         by_kind = {}
         for n, k in want_a:
@@ -414,10 +431,11 @@ class C11(Monitor):
             yield {"k": "hdrcounts", "s": "HC", "base": name}
             yield {"k": "hdrnames", "s": "HN", "base": name}
             yield {"k": "hdrnested", "s": "HX", "base": name}
+            yield {"k": "hdrlines", "s": "HL", "base": name}
 
     def predicted(self):
         n = 1 << len(K)
-        tot = (n + CHUNK - 1) // CHUNK + len(UNKNOWN) + 1 + 4 * len(BASE_SOURCES)
+        tot = (n + CHUNK - 1) // CHUNK + len(UNKNOWN) + 1 + 5 * len(BASE_SOURCES)
         if self.tier == "thorough":
             tot += len(UNKNOWN) * ((n + CHUNK * 16 - 1) // (CHUNK * 16))
         return tot
@@ -432,6 +450,8 @@ class C11(Monitor):
             self.hdr_nested(case, stats)
         elif k == "hdrflags":
             self.hdr_flags(case, stats)
+        elif k == "hdrlines":
+            self.hdr_lines(case, stats)
         elif k == "hdrcounts":
             self.hdr_counts(case, stats)
         elif k == "word":
@@ -590,6 +610,38 @@ class C11(Monitor):
                 continue
             stats.nontrivial.add(digest64(("hf", case["base"], x)))
             self.judge(dict(case, xor=x), alt, stats, "%s with co_flags 0x%x (compiler: 0x%x)" % (case["base"], fl, base.co_flags))
+
+    def hdr_lines(self, case, stats):
+        """The line table of the base object altered by hand: emptied, cut after its
+        first entry, and continued with 1..4 entries at and beyond the end of the
+        bytecode (CPython accepts and reports all of them; the data model keeps one)."""
+        base = base_code(case["base"])
+        attr = "co_lnotab" if PY < (3, 10) else "co_linetable"
+        table = getattr(base, attr)
+        n = len(base.co_code)
+        covered = sum(table[0::2])
+        alts = [("emptied", b""), ("first-entry-only", table[:2])]
+        for step in (2, 4):
+            for line in (1, 0x81 if PY < (3, 10) else 0xFF):
+                for extra in (1, 2, 3, 4):
+                    if PY < (3, 10):
+                        if n - covered > 255:
+                            continue
+                        t = table + bytes([n - covered, line]) + bytes([step, line]) * (extra - 1)
+                    else:
+                        t = table + bytes([step, line]) * extra
+                    alts.append(("%d entries (+%d bytes, line byte 0x%02x) at/after the end" % (extra, step, line), t))
+        only = case.get("lalt")
+        for label, t in alts:
+            if only is not None and label != only:
+                continue
+            try:
+                alt = ref.code_replace(base, **{attr: t})
+            except Exception:
+                stats.outcomes["CodeType-rejects"] += 1
+                continue
+            stats.nontrivial.add(digest64(("hl", case["base"], label)))
+            self.judge(dict(case, lalt=label), alt, stats, "%s with line table %s" % (case["base"], label))
 
     def hdr_nested(self, case, stats):
         """Header fields of a *nested* code object that code.__eq__ ignores (file name,
